@@ -108,6 +108,10 @@ func DrawOut(r *core.Run, hostileMode int, needURL bool) *Out {
 	}
 	s.Cfg.EncStyle, s.Cfg.EncKeyIdx, s.Cfg.EncCert = o.EncStyle, o.EncKey, o.EncCert
 	s.Cfg.SigStyle, s.Cfg.SigKeyIdx, s.Cfg.SigCert = o.SigStyle, o.SigKey, o.SigCert
+	if rs := t.Int(8, "out.rejectedsetter"); rs >= 1 && rs <= 3 {
+		s.Cfg.RejectedSetters = rs
+		r.Fault("key_rotation_refused_by_the_sp")
+	}
 	if o.SigStyle != world.KeyNone {
 		o.WantSignKey, o.WantSignCert = o.SigKey, o.SigCert
 	} else {
